@@ -22,7 +22,7 @@ CANDIDATES = [
     "103\n250115", "S103250115", "R103250115", "ABC", "K90", "SDVA", "HOLD/INFO", "AB", "XYZ", "USD",
     "/8c/1234", "ABCDEFGH", "12345678901", "3/10", "0,5", "1000,", "100,", "USD100,", "250115USD100,",
     "/D/12345678", "//CH123456", "NAME LINE", "LINE1\nLINE2", "ACCT123", "12345678\nBANKDEFFXXX",
-    "1/NAME\n2/STREET\n3/US", "103\n231215", "103\n2312151234567890", "/SNDTIME/1414+0200", "CUST/US/12345\n1/NAME", "/1234\n1/NAME\n2/ADDR\n3/US/CITY",
+    "1/NAME\n2/STREET\n3/US", "103231215", "1032312151234567890", "103\n231215", "/SNDTIME/1414+0200", "CUST/US/12345\n1/NAME", "/1234\n1/NAME\n2/ADDR\n3/US/CITY",
 ]
 INVALID_CANDIDATES = ["", "\x01", "?" * 120 + "\n" * 40, "\n\n\n\n\n\n\n\n\n\n\n\n\n\n\n\n\n\n\n\n\n\n\n\n\n\n\n\n\n\n\n\n\n\n\n\n\n" + "é" * 300]
 
